@@ -21,6 +21,7 @@ func main() {
 	case "C15":
 		vsched.TrackStates = false
 		runC15(R)
+		finishSched(R)
 	case "C19":
 		vsched.TrackStates = false
 		runC19(R)
